@@ -237,6 +237,10 @@ pub fn gen_setup_band(r: &mut Rng, profile: Profile, max_k: u32, band: Option<u3
         };
         receivers.push(RxSpec { kind, threshold, mirror });
     }
+    if band_lo.is_some() && !receivers.is_empty() && r.chance(1, 2) {
+        // large single blocks: a block-level receiver (the only interface with real batches)
+        receivers[0].kind = RxKind::Block;
+    }
     let kernel = if profile == Profile::C07 {
         Kernel::Auto
     } else {
@@ -441,29 +445,33 @@ impl Sim {
     }
 }
 
+/// a receiver application that buffers everything and hands it to the decoder in one go at the end
+/// (stalled for the whole transfer), behind a link that loses little: the decoder's first attempt
+/// sees far more than K symbols
+fn buffering_link(r: &mut Rng) -> Link {
+    let drop_iid = match r.below(3) {
+        0 => 0.0005 * r.f64(),
+        1 => 0.002 * r.f64(),
+        _ => 0.05 * r.f64(),
+    };
+    Link {
+        drop_iid,
+        ge: None,
+        bad: false,
+        partitions: vec![],
+        dup: if r.chance(1, 3) { 0.2 * r.f64() } else { 0.0 },
+        base: 1,
+        jitter: if r.chance(1, 2) { r.below(20) } else { 0 },
+        stalls: vec![(0, u64::MAX / 4)],
+        pending: vec![],
+        max_send_index: 0,
+        late_join_pending: false,
+    }
+}
+
 fn gen_link(r: &mut Rng, profile: Profile, horizon: u64) -> Link {
     if r.chance(1, 12) {
-        // a receiver application that buffers everything and hands it to the decoder in one go at
-        // the end (stalled for the whole transfer), behind a link that loses little: the decoder's
-        // first attempt sees far more than K symbols
-        let drop_iid = match r.below(3) {
-            0 => 0.0,
-            1 => 0.002 * r.f64(),
-            _ => 0.05 * r.f64(),
-        };
-        return Link {
-            drop_iid,
-            ge: None,
-            bad: false,
-            partitions: vec![],
-            dup: if r.chance(1, 3) { 0.2 * r.f64() } else { 0.0 },
-            base: 1,
-            jitter: if r.chance(1, 2) { r.below(20) } else { 0 },
-            stalls: vec![(0, u64::MAX / 4)],
-            pending: vec![],
-            max_send_index: 0,
-            late_join_pending: false,
-        };
+        return buffering_link(r);
     }
     let on = |r: &mut Rng| r.chance(1, 2);
     let heavy = r.chance(1, 12);
@@ -525,7 +533,12 @@ pub fn simulate_setup(mut r: Rng, setup: Setup, profile: Profile, oracles: Oracl
     let ks = ex.ks.clone();
     let total_syms: u64 = ks.iter().map(|k| *k as u64).sum();
     let horizon = (total_syms * 2).max(20);
-    let links: Vec<Link> = (0..ex.nrx()).map(|_| gen_link(&mut r, profile, horizon)).collect();
+    let mut links: Vec<Link> = (0..ex.nrx()).map(|_| gen_link(&mut r, profile, horizon)).collect();
+    if ks.len() == 1 && ks[0] >= 700 && setup.receivers[0].kind == RxKind::Block && r.chance(2, 3) {
+        // ... that buffers the whole transfer behind a link that loses little, so that its first
+        // attempt holds surplus symbols (and, with enough of them, takes the GF(2)-only path)
+        links[0] = buffering_link(&mut r);
+    }
     let (p_snapshot, p_check, p_poke) = match profile {
         Profile::C08 => (25, 40, 25),
         Profile::C01 => (10, 0, 5),
@@ -566,7 +579,13 @@ pub fn simulate_setup(mut r: Rng, setup: Setup, profile: Profile, oracles: Oracl
 fn pick_window(r: &mut Rng, k: u32, prev_end: &mut u32, earlier: &mut Vec<(u32, u32)>, want: u32) -> (u32, u32) {
     let room = (1u32 << 24) - k; // number of repair ids
     let n = want.clamp(1, 64).min(room);
-    let s = match r.below(10) {
+    let s = match r.below(11) {
+        10 => {
+            // repair ids that agree with small ids modulo 2^16 (m * 65536 + a small id): what a
+            // 16-bit truncation somewhere would confuse with the source symbols of a block
+            let m = 1 + r.below(255) as u32;
+            (m * 65536 + r.below(k as u64 + 4) as u32).saturating_sub(k)
+        }
         0..=3 => *prev_end,
         4 => 0,
         5 | 6 if !earlier.is_empty() => {
